@@ -1,6 +1,7 @@
 import SemVerif.Spec.Preds
 import SemVerif.Spec.Codec
 import SemVerif.Spec.CodecStack
+import SemVerif.Spec.Stats
 open SemVerif
 
 def panicProj (r : Result) (s : String) : String := if r.panic.isSome then "panic" else s
@@ -62,7 +63,7 @@ def isGroupProp (prop : String) : Bool := prop == "C16" || prop == "C17"
 
 def features (p : Program) (r : Result) : String :=
   let n := (r.roots.map fun b => b.context.length).sum
-  s!"{pi_verdict r},wf={WellFormedB p},loopok={LoopOKB p},f2={p.fnDecls.any FnDecl.hasF2},f3={p.fnDecls.any FnDecl.hasF3},fns={p.fnDecls.length},instrs={n},errs={r.errors.length}"
+  s!"{pi_verdict r},wf={WellFormedB p},loopok={LoopOKB p},f2={p.fnDecls.any FnDecl.hasF2},f3={p.fnDecls.any FnDecl.hasF3},fns={p.fnDecls.length},instrs={n},errs={r.errors.length},first={match r.errors.head? with | some e => e.kind.wire | none => "-"},{statsStr p.fnDecls}"
 
 structure GroupAcc where
   hdr : String := ""
